@@ -140,8 +140,21 @@ def ast_obligations(chk):
     chk.frame("fresh_state_per_file", fresh, {}, what="Context / File no longer create fresh history, scope, preproc, errors")
     main = repo.find_function("norminette/__main__.py:main")
     loop = [x for x in main.node.body if isinstance(x, ast.For) and isinstance(x.iter, ast.Name) and x.iter.id == "files"]
-    body = ast.unparse(loop[-1]) if loop else ""
-    chk.frame("main.new_lexer_and_context_per_file", "Lexer(file)" in body and "Context(file" in body, {},
+    # ... seen through helper functions defined in main() or at module level (one object per call)
+    helpers = {d.name: d for d in ast.walk(repo.module("norminette/__main__.py").tree) if isinstance(d, ast.FunctionDef)}
+    built = set()
+
+    def constructions(node, depth=0):
+        for x in ast.walk(node):
+            if isinstance(x, ast.Call):
+                nm = ast.unparse(x.func)
+                if nm in ("Lexer", "Context") and x.args and isinstance(x.args[0], ast.Name):
+                    built.add(nm)
+                if nm in helpers and nm != "main" and depth < 3:
+                    constructions(helpers[nm], depth + 1)
+    for lp in loop:
+        constructions(lp)
+    chk.frame("main.new_lexer_and_context_per_file", built == {"Lexer", "Context"}, {"built_in_the_loop": sorted(built)},
               what="main() no longer builds a new Lexer and Context for every file")
 
 
